@@ -410,7 +410,7 @@ func c14Check(m *mux.Muxer, md *mModel) string {
 func init() {
 	fw.Register(&fw.Check{
 		ID: "C14", Level: "model_checking", Shards: shards16,
-		Rule: fmt.Sprintf("explicit-state BFS over the real Muxer: %s-call alphabet (AddFrame of 6 real bitstreams {VP8 even/odd, VP8L opaque/alpha, ALPH-prefixed VP8 with even/odd alpha} x 5 option sets; SetFrameDisposeMode/SetFrameDuration at {0,last,out of range}; SetICCProfile/SetEXIF/SetXMP/AddChunk x {nil,empty,odd,even}; SetLoopCount; SetBackgroundColor; SetCanvasSize), depth 4 quick / 5 thorough, merged by reflection hash of the Muxer's private state; after every history Assemble is checked against a plain-struct model through riffwalk, mux.Demuxer and container.Parser", "73"),
+		Rule:   fmt.Sprintf("explicit-state BFS over the real Muxer: %s-call alphabet (AddFrame of 6 real bitstreams {VP8 even/odd, VP8L opaque/alpha, ALPH-prefixed VP8 with even/odd alpha} x 5 option sets; SetFrameDisposeMode/SetFrameDuration at {0,last,out of range}; SetICCProfile/SetEXIF/SetXMP/AddChunk x {nil,empty,odd,even}; SetLoopCount; SetBackgroundColor; SetCanvasSize), depth 4 quick / 5 thorough, merged by reflection hash of the Muxer's private state; after every history Assemble is checked against a plain-struct model through riffwalk, mux.Demuxer and container.Parser", "73"),
 		Assume: []string{"frames are real VP8/VP8L bitstreams produced by this package's encoder (junk data is outside the property's quantifier)", "a rejected Assemble (error) is accepted"},
 		Run: func(e *fw.Env, r *fw.Result) {
 			pin()
